@@ -115,8 +115,17 @@ pub fn family_main(o: &Opts, prop: &str, seed_tag: u64, default_strata: &str, de
     let mut r = Rng::new(o.seed ^ seed_tag);
     let mut cat = gen_catalog(&mut r, &copts);
     let mut n = 0usize; let mut attempts = 0usize;
+    let big = o.get_usize("big", 1) == 1; let mut big_now = false;
     while n < o.cases && attempts < o.cases * 4 + 16 {
-        if attempts % per_cat == 0 { cat = gen_catalog(&mut r, &copts); }
+        if attempts % per_cat == 0 {
+            // size stream (`--opt big=0` switches it off): the 4th catalog of a run has a table just above 1024 rows, the 8th one above 8192
+            let k = attempts / per_cat;
+            let mut co = copts.clone();
+            if big && k == 3 { co.big_rows = Some(*r.pick(&[1001usize, 1025, 1100, 2049])); }
+            if big && k == 7 { co.big_rows = Some(*r.pick(&[8193usize, 8200, 10001])); }
+            cat = gen_catalog(&mut r, &co);
+            big_now = co.big_rows.is_some();
+        }
         attempts += 1;
         let mut qr = r.fork();
         let g = Gen::new(&mut qr, &cat, &gopts).generate(n);
@@ -124,6 +133,7 @@ pub fn family_main(o: &Opts, prop: &str, seed_tag: u64, default_strata: &str, de
         // rotate the single configuration of a spec-mode case over the list
         let one = [cfgs[n % cfgs.len()].clone()];
         let mut case = make_case(&prop, &cat, &g.q, &g.tags, g.engine_defined, if meta { &cfgs } else { &one }, meta);
+        if big_now { if let Some(t) = case["tags"].as_array_mut() { t.push(json!("data:big")); } }
         if neutral { case["neutral"] = json!(["nonull", "noopt"]); }
         let simple = !g.tags.iter().any(|t| t == "f:join" || t == "f:agg" || t == "f:setop");
         if strict_err == "1" || (strict_err == "simple" && simple) { case["strict_err"] = json!(true); }
